@@ -533,8 +533,19 @@ class _Taint(object):
                 setter = iff
                 break
         if setter is None:
+            # the same in one statement: x = <constant> if T else None
+            for n in stores:
+                asg = mod.parents.get(n)
+                if isinstance(asg, ast.Assign) and len(asg.targets) == 1 and asg.targets[0] is n and isinstance(asg.value, ast.IfExp) and \
+                        isinstance(asg.value.body, ast.Constant) and isinstance(asg.value.orelse, ast.Constant):
+                    setter = asg
+                    break
+        if setter is None:
             return None
-        a, b = setter.body[0].value.value, setter.orelse[0].value.value
+        if isinstance(setter, ast.Assign):
+            a, b, setter_test = setter.value.body.value, setter.value.orelse.value, setter.value.test
+        else:
+            a, b, setter_test = setter.body[0].value.value, setter.orelse[0].value.value, setter.test
         if (a is None) == (b is None):
             return None
         test_stmt = stmt_of(mod, t)
@@ -545,7 +556,7 @@ class _Taint(object):
         if any(id(n) not in inner for n in stores):
             return None          # set somewhere else as well
         none_branch_pol = a is None      # T true -> None
-        return (setter.test, none_branch_pol if is_none else not none_branch_pol)
+        return (setter_test, none_branch_pol if is_none else not none_branch_pol)
 
     # -- one function ------------------------------------------------------------------------------------
     def scan(self, fi, ptags, chain=()):
@@ -1018,8 +1029,8 @@ def _r18a(rep, repo, meta):
             elif isinstance(n, ast.Call) and call_name(n) == 'dict':
                 vals = [k.value for k in n.keywords]
             elif isinstance(n, ast.Call) and isinstance(n.func, ast.Attribute) and n.func.attr in ('append', 'insert', 'add') and \
-                    isinstance(n.func.value, ast.Name) and n.func.value.id in _returned_names(fi):
-                vals = list(n.args[-1:])      # an element of the list the function returns
+                    _root_name(n.func.value) in _returned_names(fi):
+                vals = list(n.args[-1:])      # an element of a list (inside) what the function returns
             elif isinstance(n, (ast.ListComp, ast.SetComp, ast.GeneratorExp)) and _is_returned(fi, n):
                 vals = [n.elt]
             elif isinstance(n, ast.DictComp) and _is_returned(fi, n):
@@ -1034,11 +1045,34 @@ def _r18a(rep, repo, meta):
     rep.floor('R18.a', 5)
 
 
+def _root_name(e):
+    """Root local of ``x.a[k].setdefault(..)``-style receiver chains."""
+    while True:
+        if isinstance(e, (ast.Attribute, ast.Subscript)):
+            e = e.value
+        elif isinstance(e, ast.Call):
+            e = e.func
+        else:
+            return e.id if isinstance(e, ast.Name) else None
+
+
 def _returned_names(fi):
-    """Locals mentioned in a return value of the function."""
+    """Locals mentioned in a return / yield value of the function, and the locals whose value is stored in one of them
+    (``out = tmp`` / ``out[k] = tmp`` / ``out.append(tmp)`` with ``out`` returned)."""
     c = getattr(fi, '_c18_returned', None)
     if c is None:
-        c = fi._c18_returned = set(x.id for r in returns_of(fi) if r.value is not None for x in ast.walk(r.value) if isinstance(x, ast.Name))
+        c = set(x.id for r in walk_body(fi.node) if isinstance(r, (ast.Return, ast.Yield, ast.YieldFrom)) and r.value is not None
+                for x in ast.walk(r.value) if isinstance(x, ast.Name))
+        for _ in range(4):
+            before = len(c)
+            for st in stmts_of(fi.node):
+                if isinstance(st, (ast.Assign, ast.AugAssign, ast.AnnAssign)) and st.value is not None:
+                    tgts = st.targets if isinstance(st, ast.Assign) else [st.target]
+                    if any(_root_name(t) in c for t in tgts):
+                        c |= set(x.id for x in ast.walk(st.value) if isinstance(x, ast.Name))
+            if len(c) == before:
+                break
+        fi._c18_returned = c
     return c
 
 
@@ -1104,26 +1138,39 @@ def _context_functions(repo, meta):
 
 def _object_names(repo, ctx):
     """Per context function: the locals that hold an application / route / middleware / request object itself -- the
-    conventional names, plus aliases, loop variables over ``<object>.routes`` / ``.middlewares`` / ``.peripherals`` and
-    the parameters of helpers such a local is passed to."""
+    conventional names, plus aliases, loop variables over ``<object>.routes`` / ``.middlewares`` / ``.peripherals`` (also
+    when that list is named first or handed to a helper) and the parameters of helpers such a local is passed to."""
     objs = dict((fi.key, set(OBJECT_NAMES)) for fi in ctx)
+    colls = dict((fi.key, set()) for fi in ctx)       # locals that hold a list of such objects
     by_key = dict((fi.key, fi) for fi in ctx)
-    for _ in range(6):
+
+    def unwrap(e):
+        while isinstance(e, ast.Call) and isinstance(e.func, ast.Name) and e.func.id in SEQ_THROUGH | {'enumerate'} and e.args:
+            e = e.args[0]
+        return e
+    for _ in range(8):
         changed = False
         for fi in ctx:
-            cur = objs[fi.key]
+            cur, cl = objs[fi.key], colls[fi.key]
+
+            def is_coll(e):
+                e = unwrap(e)
+                return (isinstance(e, ast.Attribute) and e.attr in ('routes', 'middlewares', 'peripherals') and
+                        isinstance(e.value, ast.Name) and e.value.id in cur) or (isinstance(e, ast.Name) and e.id in cl)
             for n in walk_body(fi.node):
                 new = None
-                if isinstance(n, ast.Assign) and len(n.targets) == 1 and isinstance(n.targets[0], ast.Name) and \
-                        isinstance(n.value, ast.Name) and n.value.id in cur:
-                    new = n.targets[0].id
-                elif isinstance(n, (ast.For, ast.comprehension)) and isinstance(n.target, ast.Name):
-                    it = n.iter
-                    if isinstance(it, ast.Call) and isinstance(it.func, ast.Name) and it.func.id in SEQ_THROUGH and len(it.args) == 1:
-                        it = it.args[0]
-                    if isinstance(it, ast.Attribute) and it.attr in ('routes', 'middlewares', 'peripherals') and \
-                            isinstance(it.value, ast.Name) and it.value.id in cur:
-                        new = n.target.id
+                if isinstance(n, ast.Assign) and len(n.targets) == 1 and isinstance(n.targets[0], ast.Name):
+                    if isinstance(n.value, ast.Name) and n.value.id in cur:
+                        new = n.targets[0].id
+                    elif is_coll(n.value) and n.targets[0].id not in cl:
+                        cl.add(n.targets[0].id)
+                        changed = True
+                elif isinstance(n, (ast.For, ast.comprehension)) and is_coll(n.iter):
+                    tg = n.target
+                    if isinstance(tg, (ast.Tuple, ast.List)) and len(tg.elts) == 2 and isinstance(n.iter, ast.Call) and call_name(n.iter) == 'enumerate':
+                        tg = tg.elts[1]
+                    if isinstance(tg, ast.Name):
+                        new = tg.id
                 elif isinstance(n, ast.Call):
                     callee, skip = resolve_callee(repo, fi, n)
                     if callee is not None and callee.key in by_key:
@@ -1131,6 +1178,9 @@ def _object_names(repo, ctx):
                         for p, x in b.items():
                             if isinstance(x, ast.Name) and x.id in cur and p not in objs[callee.key]:
                                 objs[callee.key].add(p)
+                                changed = True
+                            elif is_coll(x) and p not in colls[callee.key]:
+                                colls[callee.key].add(p)
                                 changed = True
                 if new is not None and new not in cur:
                     cur.add(new)
@@ -1293,7 +1343,7 @@ def _r18b(rep, repo, meta):
     n_repr = 0
     for m in repo.all_internal_modules():
         for c in m.classes.values():
-            if c is mwbase or mwbase not in repo.mro(c):
+            if mwbase not in repo.mro(c):
                 continue
             for nm in ('__repr__', '__str__'):
                 r = c.methods.get(nm)
@@ -1324,6 +1374,29 @@ def _is_inject(fi, call):
         if isinstance(v, ast.Call) and norm(v.func) in ('partial', 'functools.partial') and v.args and norm(v.args[0]) == 'inject':
             return True
     return False
+
+
+def _callees_of(repo, fi, call):
+    """The functions of the tree a call may run: the callee itself, or -- for a call of a local that holds a function --
+    every function the local is bound to (``f = self.a if cond else self.b`` ... ``f(x)``)."""
+    callee, _ = resolve_callee(repo, fi, call)
+    if callee is not None:
+        return [callee]
+    f = call.func
+    out = []
+    if isinstance(f, ast.Name) and f.id in _local_names(fi) and f.id not in fi.params():
+        vals = [s.value for s in stmts_of(fi.node) if isinstance(s, ast.Assign) and len(s.targets) == 1 and
+                isinstance(s.targets[0], ast.Name) and s.targets[0].id == f.id]
+        todo = list(vals)
+        while todo:
+            v = todo.pop()
+            if isinstance(v, ast.IfExp):
+                todo += [v.body, v.orelse]
+            elif isinstance(v, (ast.Name, ast.Attribute)):
+                g, _ = resolve_callee(repo, fi, ast.Call(func=v, args=[], keywords=[]))
+                if g is not None:
+                    out.append(g)
+    return out
 
 
 def _run_sites(repo, fi, node, chain, depth=0):
@@ -1387,9 +1460,9 @@ def _inject_calls(repo, fi, wanted, chain=(), seen=None):
             if isinstance(target, ast.Attribute) and target.attr in wanted:
                 out.append((fi, c, chain))
                 continue
-        callee, _ = resolve_callee(repo, fi, c)
-        if callee is not None and callee.mod is fi.mod and callee.name not in ('get_main', 'render_main_page_html'):
-            out.extend(_inject_calls(repo, callee, wanted, chain + ((fi, c),), seen))
+        for callee in _callees_of(repo, fi, c):
+            if callee.mod is fi.mod and callee.name not in ('get_main', 'render_main_page_html'):
+                out.extend(_inject_calls(repo, callee, wanted, chain + ((fi, c),), seen))
     return out
 
 
@@ -1412,6 +1485,23 @@ def _indexes_into(repo, fi, nodes, name, depth=0):
                 if isinstance(x, ast.Name) and x.id == name:
                     out.extend(_indexes_into(repo, callee, list(walk_body(callee.node)), p, depth + 1))
     return out
+
+
+def _is_generator(fi):
+    return any(isinstance(n, (ast.Yield, ast.YieldFrom)) for n in walk_body(fi.node))
+
+
+def _consumed_in_place(fi, call):
+    """The iterable made by ``call`` is exhausted right where it is made: ``list(call)``, ``d.update(call)``, ``for .. in call``."""
+    par = fi.mod.parents.get(call)
+    if isinstance(par, ast.For) and par.iter is call:
+        return False      # (the body of the loop is then inside the iteration, but the try has to be around the loop)
+    if isinstance(par, ast.Call) and any(call is a for a in par.args):
+        if isinstance(par.func, ast.Name) and par.func.id in ('list', 'tuple', 'dict', 'set', 'sorted', 'frozenset', 'sum', 'any', 'all', 'max', 'min'):
+            return True
+        if isinstance(par.func, ast.Attribute) and par.func.attr in ('update', 'extend', 'join'):
+            return True
+    return False
 
 
 def _substitutes(fi, h, in_helper):
@@ -1461,6 +1551,8 @@ def _r18c(rep, repo, meta):
             links = list(chain) + [(fi, node)]          # outermost first
             h, hj, hf = None, None, None
             for j in range(len(links) - 1, -1, -1):
+                if j < len(links) - 1 and _is_generator(links[j + 1][0]) and not _consumed_in_place(links[j][0], links[j][1]):
+                    break      # the call only creates the generator: its body runs wherever it is consumed
                 h = protected_by(links[j][0], links[j][1], 'Exception')
                 if h is not None:
                     hj, hf = j, links[j][0]
